@@ -303,13 +303,16 @@ def _mp_tile_worker(queue, done_event, pio, reproject_function, kwargs):
     invert_into_tiles = pio.get_default_vertical_parity_sign() == 1
 
     while True:
+        # Sample the flag before receiving; see `pyramid._mp_visit_worker`.
+        done = done_event.is_set()
+
         try:
             # un-pickling WCS objects always triggers warnings right now
             with warnings.catch_warnings():
                 warnings.simplefilter("ignore")
                 image, desc, combined_wcs = queue.get(True, timeout=10)
         except Empty:
-            if done_event.is_set():
+            if done:
                 break
             continue
 
